@@ -1,5 +1,6 @@
 import BufProofs.Lemmas.CacheDigestLemmas
 import BufProofs.Props.C08
+import BufProofs.Props.C09
 /-
   C09 — digest link (audit item S1): the abstract gate of `BufModel.Cache.load`
   ("module-file sets equal ∧ marker token canonical") is tied to the REAL b5 digest computation
@@ -436,5 +437,26 @@ theorem load_abstraction_readme_counterexample :
   refine ⟨?_, by decide, by decide, by decide⟩
   unfold cexPinned
   rw [BufModel.Digest.moduleB5_eq C08.toyH _ [] ⟨by decide, by decide⟩ (by decide)]
+
+/-- The writer machine composed with the REAL digest gate: in every reachable state of any number
+    of concurrent / crashed / failed stores, started from any entry without a valid marker, a
+    valid marker implies that the digest-recomputing load `loadD` hits and serves exactly the
+    honest module files. -/
+theorem store_success_then_real_hit (H : Bytes → Digest) (pinned : MDigest)
+    (depsOf : Content → Option (List MDigest)) (hdeps : List MDigest)
+    (exp : Expected) (wf : WF exp) (hside : SidesOutsideFiles exp)
+    (hpin : moduleB5 H (toBucket exp.files) hdeps = .ok pinned)
+    (okH : BucketOK (toBucket exp.files)) (hcan : depsOf markerCanonical = some hdeps)
+    (e0 : Mem) (hk : OnlyPayloadKeys exp e0) (hn : NodupKeys e0) (hm0 : markerOK e0 = false)
+    (n : Nat) (acts : List Act)
+    (h : markerOK (runActs exp (initFrom e0 n) acts).entry = true) :
+    loadD H pinned depsOf (exp.sides.map (·.1)) (runActs exp (initFrom e0 n) acts).entry =
+        .hit (servedFiles (entryFiles (runActs exp (initFrom e0 n) acts).entry)) ∧
+      ∀ e, e ∈ toBucket (servedFiles (entryFiles (runActs exp (initFrom e0 n) acts).entry)) ↔
+        e ∈ filterModule (toBucket exp.files) := by
+  have inv := runActs_inv wf acts (initFrom e0 n) (initFrom_inv exp e0 n hk hn hm0)
+  obtain ⟨hc, hm⟩ := inv.markerComplete h
+  exact complete_payload_entry_hits H pinned depsOf exp hdeps _ hpin okH hcan hside hc hm inv.keys
+    inv.nodupKeys
 
 end BufProofs.C09
